@@ -130,7 +130,7 @@ func (e *Enc) siteLabel(st *Site) string {
 }
 
 func (e *Enc) markSiteHit(fr *Frame) {
-	if e.fc != nil && e.fc.Covers {
+	if e.fc != nil && e.fc.Covers && !e.fc.CoverNoSites {
 		e.get(fr.curState, "ghost:sitehit", SBool)
 		fr.curState.m["ghost:sitehit"] = True
 	}
@@ -454,13 +454,23 @@ func (e *Enc) atReturn(fr *Frame, x *ssa.Return, vs []Val) {
 					rv = append(rv, tv)
 				}
 			}
+			// the function result whose nil-ness is tested: last if it is an error, else first
+			resK := 0
+			if n := len(results); n > 0 && results[n-1].Typ != nil && types.Identical(results[n-1].Typ, types.Universe.Lookup("error").Type()) {
+				resK = n - 1
+			}
 			for _, r := range rv {
 				if r.Typ == nil {
 					continue
 				}
+				// a callee returning a tuple contributes its last component (the error)
+				if tup, ok := r.V.(*TupleV); ok {
+					tt := r.Typ.(*types.Tuple)
+					r = TV{V: tup.E[len(tup.E)-1], Typ: tt.At(tt.Len() - 1).Type()}
+				}
 				// result equals the value returned by the excepted callee
-				if len(results) > 0 && results[0].Typ != nil && types.Identical(r.Typ, results[0].Typ) {
-					alts = append(alts, e.eqValLoose(results[0].V, r.V, r.Typ, r.Typ))
+				if len(results) > 0 && results[resK].Typ != nil && types.Identical(r.Typ, results[resK].Typ) {
+					alts = append(alts, e.eqValLoose(results[resK].V, r.V, r.Typ, r.Typ))
 				}
 			}
 		}
